@@ -241,6 +241,104 @@ def k_subst(params):
     return res(evals=n, nontrivial=n, viol=list(viol.values()), sample={"tag": tag, "polynomials": len(polys), "substitutions": list(subs)})
 
 
+def k_edge_arbitrary(params):
+    """both-direction edges on arbitrary polynomials (not only on what the pipeline produces): src -> dst -> src returns the coefficients.
+    Centre-manifold forms get polynomials in the centre variables only (that is their domain)."""
+    from hiten.system.hamiltonian import Hamiltonian
+    from numba.typed import List
+    pb = _L["pb"]
+    system = _L["System"].from_mu(params["mu"])
+    pt = system.get_libration_point(params["point"])
+    deg = params["degree"]
+    pipe = _L["CM"](pt, deg).dynamics.pipeline
+    reg = pipe.registry._CONVERSION_REGISTRY
+    psi, clmo = pb._init_index_tables(deg)
+    enc = pb._create_encode_dict_from_clmo(clmo)
+    polys = [(nm, ph) for nm, ph in _mk_polys(deg, psi, clmo, enc, []) if nm in ("dense_alternating", "all_ones") or nm.startswith("x^(")][::7]
+    polys += [(nm, ph) for nm, ph in _mk_polys(deg, psi, clmo, enc, []) if nm in ("dense_alternating", "all_ones")]
+    viol = {}
+    n = nt = 0
+    tag0 = "mu=%g L%d degree=%d" % (params["mu"], params["point"], deg)
+    for (src, dst) in sorted(reg.keys()):
+        if (dst, src) not in reg:
+            continue
+        cm_only = src.startswith("center_manifold") or dst.startswith("center_manifold")
+        for nm, ph in polys:
+            lst = List()
+            for d in range(deg + 1):
+                a = np.array(ph[d], dtype=np.complex128)
+                if d < 2:
+                    a[:] = 0.0      # Hamiltonian forms start at degree 2
+                if cm_only:
+                    for pos in np.nonzero(a)[0]:
+                        k = pb._decode_multiindex(int(pos), d, clmo)
+                        if k[0] or k[3]:
+                            a[pos] = 0.0
+                lst.append(a)
+            if not any(np.any(a != 0) for a in lst):
+                continue
+            n += 1
+            try:
+                H = Hamiltonian(lst, deg, 3, name=src)
+                mid = H.to_state(dst, point=pt)
+                mid = mid[0] if isinstance(mid, tuple) else mid
+                back = mid.to_state(src, point=pt)
+                back = back[0] if isinstance(back, tuple) else back
+            except Exception as exc:
+                key = "arbitrary/raises/%s<->%s" % (src, dst)
+                viol.setdefault(key, violation(key, "%s -> %s -> %s on the polynomial %s raises %s: %s [%s]" % (src, dst, src, nm, type(exc).__name__, str(exc)[:140], tag0)))
+                continue
+            nt += 1
+            d_, sc = _coeff_diff(back.poly_H, lst)
+            if d_ > 1e-10 * sc:
+                key = "arbitrary/roundtrip/%s<->%s" % (src, dst)
+                viol.setdefault(key, violation(key, "%s -> %s -> %s does not return the coefficients of the polynomial %s: max diff %.3e (scale %.3e) [%s]" % (src, dst, src, nm, d_, sc, tag0), d_, 0.0))
+    # a conversion called once with a custom tolerance must not change what later default conversions on the same edge do: polynomial with
+    # coefficients spread over 1e-6..1, round trip before and after a tol=1e-3 call on that edge
+    for (src, dst) in sorted(reg.keys()):
+        if (dst, src) not in reg:
+            continue
+        cm_only = src.startswith("center_manifold") or dst.startswith("center_manifold")
+        lst = List()
+        for d in range(deg + 1):
+            a = np.zeros(int(psi[6, d]), dtype=np.complex128)
+            if d >= 2:
+                for pos in range(a.size):
+                    k = pb._decode_multiindex(int(pos), d, clmo)
+                    if cm_only and (k[0] or k[3]):
+                        continue
+                    a[pos] = (1.0 if pos % 2 else -1.0) * 10.0 ** (-(pos % 7))
+            lst.append(a)
+
+        def rt():
+            H = Hamiltonian(lst, deg, 3, name=src)
+            mid = H.to_state(dst, point=pt)
+            mid = mid[0] if isinstance(mid, tuple) else mid
+            back = mid.to_state(src, point=pt)
+            back = back[0] if isinstance(back, tuple) else back
+            return _coeff_diff(back.poly_H, lst)
+        try:
+            d0, sc = rt()
+            for a_, b_ in ((src, dst), (dst, src)):
+                try:
+                    Hc = Hamiltonian(lst, deg, 3, name=a_)
+                    Hc.to_state(b_, point=pt, tol=1e-3)
+                except Exception:
+                    pass
+            d1, sc = rt()
+        except Exception as exc:
+            key = "arbitrary/raises/%s<->%s" % (src, dst)
+            viol.setdefault(key, violation(key, "%s <-> %s on the graded polynomial raises %s: %s [%s]" % (src, dst, type(exc).__name__, str(exc)[:140], tag0)))
+            continue
+        n += 1
+        nt += 1
+        if d1 > 1e-10 * sc or d0 > 1e-10 * sc:
+            key = "arbitrary/after_custom_tolerance/%s<->%s" % (src, dst)
+            viol.setdefault(key, violation(key, "%s -> %s -> %s with default options: max coefficient error %.3e before and %.3e after one call on that edge with tol=1e-3 (coefficients of the polynomial range over 1e-6..1) [%s]" % (
+                src, dst, src, d0, d1, tag0), d1, d0))
+    return res(evals=n, nontrivial=nt, viol=list(viol.values()), sample={"tag": tag0, "roundtrips": nt})
+
+
 def k_request_history(params):
     """every ordered pair of form requests (first, b) on a freshly built pipeline; afterwards every form of that pipeline must equal the form
     obtained from a pipeline that was asked in canonical order (the one kinds `edges` / `subst` verify)"""
@@ -285,7 +383,7 @@ def k_request_history(params):
     return res(evals=n, nontrivial=nt, viol=list(viol.values()), sample={"first": first, "forms": list(ref), "histories": len(ref) + 1})
 
 
-KINDS = {"edges": k_edges, "subst": k_subst, "request_history": k_request_history}
+KINDS = {"edge_arbitrary": k_edge_arbitrary, "edges": k_edges, "subst": k_subst, "request_history": k_request_history}
 
 
 def cases(tier, seed):
@@ -300,6 +398,9 @@ def cases(tier, seed):
         for Ln in (1, 2, 4):
             for deg in ([3, 4] if tier == "quick" else [2, 3, 4, 6]):
                 out.append(("subst", {"mu": mu, "point": Ln, "degree": deg, "off": o[0], "with_pipeline": True}))
+    for mu in mus:
+        for Ln in (1, 2):
+            out.append(("edge_arbitrary", {"mu": mu, "point": Ln, "degree": 4}))
     # request histories: all ordered pairs of forms on one pipeline (the form names are enumerated at run time; unknown ones are skipped and counted)
     for first in FORMS:
         out.append(("request_history", {"mu": 0.01215, "point": 1, "degree": 4, "first": first}))
